@@ -129,6 +129,46 @@ func (d *doublyConnectedEdgeList) assignFaces() {
 		}
 	})
 
+	// The above misses faces that are inside one polygon of an operand, but
+	// only bordered by other polygons of that operand (which have their
+	// interiors on the opposite side). This happens when polygons within a
+	// GeometryCollection overlap, e.g. a hole in one polygon that is covered
+	// by another polygon. To find those, calculate how many polygons each
+	// face is nested inside. Crossing an edge leaves the polygons that have
+	// their interior on this side of it, and enters those that have their
+	// interior on the other side. The nesting depths are relative to an
+	// arbitrary starting face. The faces outside of all polygons (there is
+	// always at least one, the infinite face) are those of minimum depth.
+	forEachOperand(func(operand operand) {
+		if len(d.faces) == 0 {
+			return
+		}
+		depth := map[*faceRecord]int{d.faces[0]: 0}
+		stack := []*faceRecord{d.faces[0]}
+		var minDepth int
+		for len(stack) > 0 {
+			f := stack[len(stack)-1]
+			stack = stack[:len(stack)-1]
+			forEachEdgeInCycle(f.cycle, func(e *halfEdgeRecord) {
+				adj := e.twin.incident
+				if _, ok := depth[adj]; ok {
+					return
+				}
+				adjDepth := depth[f] - e.srcFaceCount[operand] + e.twin.srcFaceCount[operand]
+				depth[adj] = adjDepth
+				if adjDepth < minDepth {
+					minDepth = adjDepth
+				}
+				stack = append(stack, adj)
+			})
+		}
+		for f, faceDepth := range depth {
+			if faceDepth > minDepth {
+				f.inSet[operand] = true
+			}
+		}
+	})
+
 	// If we couldn't find any cycles, then we wouldn't have constructed any
 	// faces. This happens in the case where there are only point geometries.
 	// We need to artificially create an infinite face.
